@@ -18,6 +18,12 @@ MCDecls == <<
   D("Embedder",   "embed",       "pkg",    "go"),
   D("Empty",      "empty",       "pkg",    "go"),
   D("Grouped",    "ifaceGrouped","pkg",    "go"),
+  D("ReadWriter", "embedsLocal", "pkg",    "go"),
+  D("Named",      "embedsStd",   "pkg",    "go"),
+  D("ReadCloser", "embedsMixed", "pkg",    "go"),
+  D("CachedRepo", "embedsGeneric","pkg",   "go"),
+  D("InstEmbed",  "embedsInst",  "pkg",    "go"),
+  D("ViaAlias",   "embedsAlias", "pkg",    "go"),
   D("InstAlias",  "instAlias",   "pkg",    "go"),
   D("NamedOver",  "namedOver",   "pkg",    "go"),
   D("AliasOver",  "aliasOver",   "pkg",    "go"),
@@ -47,12 +53,12 @@ MCNames == {MCDecls[j].name : j \in 1..Len(MCDecls)} \cup {"Missing"}
 
 \* Go regexp.MatchString semantics (unanchored search)
 MCMatchSets ==
-     "er$"              :> {"Reader", "Writer", "readCloser", "Embedder", "Number", "Handler", "Holder", "InstHolder", "Counter", "NamedOver", "AliasOver", "Streamer", "Stringer", "Keeper"}
+     "er$"              :> {"Reader", "Writer", "readCloser", "Embedder", "Number", "Handler", "Holder", "InstHolder", "Counter", "NamedOver", "AliasOver", "Streamer", "Stringer", "Keeper", "ReadWriter", "ReadCloser"}
   @@ "^(Reader|Gen)$"   :> {"Reader", "Gen"}
-  @@ "Inst"             :> {"InstDef", "InstDef2", "InstAlias", "InstHolder"}
-  @@ "(?i)^read"        :> {"Reader", "readCloser"}
+  @@ "Inst"             :> {"InstDef", "InstDef2", "InstAlias", "InstHolder", "InstEmbed"}
+  @@ "(?i)^read"        :> {"Reader", "readCloser", "ReadWriter", "ReadCloser"}
   @@ "."                :> MCNames
-  @@ "^[A-Z][a-z]+$"    :> {"Reader", "Writer", "Gen", "Embedder", "Empty", "Grouped", "Number", "Mixed", "Conf", "Handler", "Holder", "Counter", "Local", "Second", "Tagged", "Missing", "Streamer", "Stringer", "Keeper"}
+  @@ "^[A-Z][a-z]+$"    :> {"Reader", "Writer", "Gen", "Embedder", "Empty", "Grouped", "Number", "Mixed", "Conf", "Handler", "Holder", "Counter", "Local", "Second", "Tagged", "Missing", "Streamer", "Stringer", "Keeper", "Named"}
 
 MCMatch == [p \in DOMAIN MCMatchSets |-> [n \in MCNames |-> n \in MCMatchSets[p]]]
 
@@ -66,11 +72,12 @@ LV2 == <<E("Reader", "configs", 2), E("InstDef", "config", 0), E("Streamer", "nu
 LV3 == <<E("Conf", "null", 0), E("Gen", "configs", 1)>>
 LV4 == <<E("readCloser", "configs", 0), E("Writer", "configs", 3), E("Keeper", "configs", 2)>>
 LV5 == <<E("Missing", "null", 0), E("Second", "configs", 2)>>
+LV1b == <<E("ReadWriter", "null", 0), E("Named", "configs", 2), E("CachedRepo", "config", 0)>>
 LV6 == <<E("Local", "null", 0), E("Handler", "config", 0), E("Embedder", "configs", 2)>>
 LV7 == <<E("AliasOver", "configs", 2), E("Number", "null", 0), E("InTest", "null", 0)>>
 LV8 == <<E("InstHolder", "configs", 2), E("Tagged", "null", 0), E("Empty", "configs", 1), E("Grouped", "config", 0)>>
-MCListedQuick    == {LV0, LV1, LV2, LV3, LV4, LV5}
-MCListedThorough == {LV0, LV1, LV2, LV3, LV4, LV5, LV6, LV7, LV8}
+MCListedQuick    == {LV0, LV1, LV1b, LV2, LV3, LV4, LV5}
+MCListedThorough == {LV0, LV1, LV1b, LV2, LV3, LV4, LV5, LV6, LV7, LV8}
 
 \* Impl => Contract for discovery does not depend on the configuration: checked once
 ASSUME DiscoveryRefines(MCDecls)
